@@ -63,6 +63,17 @@ func (e *Enc) heapWFAxiom(name, key string, alloc Term) string {
 	if t == nil {
 		return ""
 	}
+	if len(e.con.HeapFactTypes) > 0 {
+		want := false
+		for _, tn := range e.con.HeapFactTypes {
+			if wt := e.lookupType(tn); wt != nil && e.B.heapName(wt) == key {
+				want = true
+			}
+		}
+		if !want {
+			return ""
+		}
+	}
 	cell := fmt.Sprintf("(select (select %s wf.r) wf.i)", name)
 	paths := e.refPaths(t, cell, 2)
 	if len(paths) == 0 {
